@@ -147,7 +147,8 @@ def run(job, tier):
         else:
             tally.world = W
         hc = dict(conj=cfg["conj"], xi_max=fresh("xi_max"), mpc_lim=fresh("mpc_lim"), mpd_lim=fresh("mpd_lim"), cov_max=fresh("cov_max"))
-        st["hc"] = hc
+        st["hc"] = dict(hc)          # the oracle's copy
+        st["hc_live"] = hc           # the dict the algorithm object owns (frame condition: a run does not alter its parameters)
         alg = W.carrier(get_cls(cfg["cls"]), **carrier_attrs(cfg, hc))
         return alg.run()
 
@@ -162,6 +163,11 @@ def run(job, tier):
                     assume.append(T["Fn_cov"][i, j].z > 0)
         if kind == "exc":
             tally.decide(e, z3.BoolVal(True), assume, on_sat=lambda m: cex(cfg, st, m, "O1", f"run() raised {res!r}"))
+            continue
+        live = st["hc_live"]
+        if set(live) != set(hc) or any(live[k] is not hc[k] for k in hc):
+            tally.decide(e, z3.BoolVal(True), assume, on_sat=lambda m: cex(cfg, st, m, "O1", f"run() altered run_params.hc: keys now {sorted(live)}"),
+                         label="run parameters are not modified by a run")
             continue
         out = {"Fn": res.Fn_poles, "Xi": res.Xi_poles, "Phi": res.Phi_poles}
         if is_ssi:
@@ -283,6 +289,9 @@ def replay_run(cfg, inputs, which=None):
                 res = alg.run()
         except Exception as e:  # noqa: BLE001
             return True, f"run() raised {type(e).__name__}: {e}", f"{cfg['cls']}.run:raises"
+        if set(hc) != set(inputs["hc"]) or any(hc[k] is not inputs["hc"][k] and hc[k] != inputs["hc"][k] for k in hc):
+            return True, (f"run() altered run_params.hc (keys {sorted(inputs['hc'])} -> {sorted(hc)}): a second run of the same object "
+                          f"applies different criteria"), f"{cfg['cls']}.run:modifies-run-params"
     finally:
         for mod, k, v in saved:
             setattr(mod, k, v)
